@@ -6,6 +6,8 @@
 
 use std::collections::HashMap;
 
+pub mod io;
+
 /// A component in a box, driven through the line protocol.
 pub trait VerifBox {
     /// Execute one operation and return its canonical observation.
@@ -18,13 +20,14 @@ pub fn new_box(area: &str) -> Option<Box<dyn VerifBox>> {
         "c17" => Some(Box::new(
             crate::protocol::libp2p::kademlia::verif_c17::StoreBox::new(),
         )),
+        "c11" => Some(Box::new(crate::protocol::notification::verif_c11::NotifBox::new())),
         _ => None,
     }
 }
 
 /// Names of all adapters.
 pub fn areas() -> Vec<&'static str> {
-    vec!["c17"]
+    vec!["c17", "c11"]
 }
 
 /// Decode a hex string.
